@@ -233,6 +233,7 @@ func cmdRender(args []string) *Result {
 			n = 100000
 		}
 		src.mixed(n, emit)
+		src.structured(thorough, emit)
 		// URI / info-string / soft-break heavy documents
 		for _, u := range []string{"%", "%4", "%41", "%GG", "é", "€", "\xff", "\xe2\x82", "a b", "<", "\"", "a\\b", "&amp;", "&#x41;", "ü", " x", " y", "\x0bz"} {
 			for _, t := range []string{"[a](<%s>)", "[a](/p%s)", "<http://x/%s>", "``` %s w\nc\n```", "![%s](/i \"%s\")", "[a]: /d%s\n\n[a] [A]", "1%s\n2  \n3\\\n4", "<a@b.c%s>", "- %s\n\n  9. x\n  10. y", "\t%s\n> \tq"} {
